@@ -65,6 +65,8 @@ enum What {
     Twice(Cid),
     /// sum of leaves (expert node)
     Sum(Vec<Cid>),
+    /// leaf(base) + leaf(sel) % 2: a bind whose closure owns a weak_memoize_fn closure
+    Memo(Cid, Cid),
 }
 
 struct Slot {
@@ -130,6 +132,10 @@ impl W {
             Exp::Node(What::Leaf(c)) => self.leaf_of(*c),
             Exp::Node(What::Twice(c)) => self.leaf_of(*c).map(|n| 2 * n),
             Exp::Node(What::Sum(cs)) => Some(cs.iter().filter_map(|x| self.leaf_of(*x)).sum()),
+            Exp::Node(What::Memo(b, s)) => match (self.leaf_of(*b), self.leaf_of(*s)) {
+                (Some(b), Some(s)) => Some(b + s % 2),
+                _ => None,
+            },
         }
     }
     fn fail(&mut self, clause: &'static str, msg: String) {
@@ -169,6 +175,7 @@ fn step(w: &mut W, ch: &mut Choices) {
         if live.is_empty() { 0 } else { 8 },      // 9 write
         if live.is_empty() { 0 } else { 8 },      // 10 drop a handle
         if live_obs.is_empty() { 0 } else { 5 },  // 11 drop / disallow an observer
+        if l0.is_empty() { 0 } else { 3 },        // 12 bind whose closure owns a memoised function
     ];
     match ch.weighted(&weights) {
         0 => stabilise(w),
@@ -426,6 +433,27 @@ fn step(w: &mut W, ch: &mut Choices) {
             if let Err(m) = guarded(move || drop(h)) {
                 w.fail("drop-panicked", format!("dropping the handle s{si} panicked: {m}"));
             }
+        }
+        12 => {
+            let a = l0[ch.choose(l0.len())];
+            let b = l0[ch.choose(l0.len())];
+            let (Some(Handle::L0(base)), Some(Handle::L0(sel))) = (&w.slots[a].h, &w.slots[b].h) else { return };
+            let (bcid, scid) = (w.slots[a].cid.unwrap(), w.slots[b].cid.unwrap());
+            let base_i = base.watch();
+            let can = w.canary.clone();
+            let memo = st.weak_memoize_fn(move |k: i32| {
+                let can = can.clone();
+                base_i.map(move |t: &Tv| {
+                    let _k = &can;
+                    Tv { n: t.n + k, _c: t._c.clone() }
+                })
+            });
+            let mut memo2 = memo.clone();
+            let node: Incr<Tv> = sel.bind(move |t: &Tv| memo2(t.n % 2));
+            drop(memo);
+            w.track(format!("bind over c{scid} owning a memoised function over c{bcid}"), &node);
+            w.trace.push(format!("s{} = s{b}.bind(|t| memo(t % 2)) with memo = weak_memoize_fn(|k| s{a}.map(+k))", w.slots.len()));
+            w.slots.push(Slot { cid: None, h: Some(Handle::Node(node, What::Memo(bcid, scid))) });
         }
         _ => {
             let oi = live_obs[ch.choose(live_obs.len())];
